@@ -1,5 +1,5 @@
 //! C17: encodings round-trip; TLC is the independent oracle (Codec.tla).
-use crate::c02::quote_arg;
+use crate::c02::{lit_arg as quote_arg, make_writable};
 use crate::common::*;
 use duckscript::types::runtime::{Context, StateValue};
 use serde_json::{json, Map, Value};
@@ -164,7 +164,8 @@ pub fn record(args: &[String]) {
         match i % 3 {
             0 => {
                 let len = if r.chance(1, 10) { 0 } else { r.below(12) };
-                let text: String = (0..len).map(|_| match r.below(6) { 0 => '\0', 1 => char::from_u32(r.below(0x20) as u32).unwrap(), 2 => char::from_u32(0x20 + r.below(0x5f) as u32).unwrap(), 3 => char::from_u32(0x80 + r.below(0x700) as u32).unwrap_or('x'), 4 => char::from_u32(0x800 + r.below(0xd000) as u32).unwrap_or('y'), _ => char::from_u32(0x10000 + r.below(0xfffff) as u32).unwrap_or('z') }).collect();
+                let text0: String = (0..len).map(|_| match r.below(6) { 0 => '\0', 1 => char::from_u32(r.below(0x20) as u32).unwrap(), 2 => char::from_u32(0x20 + r.below(0x5f) as u32).unwrap(), 3 => char::from_u32(0x80 + r.below(0x700) as u32).unwrap_or('x'), 4 => char::from_u32(0x800 + r.below(0xd000) as u32).unwrap_or('y'), _ => char::from_u32(0x10000 + r.below(0xfffff) as u32).unwrap_or('z') }).collect();
+                let text = make_writable(&text0);
                 let script = format!("h = string_to_bytes {}\ne = base64_encode ${{h}}\nback = bytes_to_string ${{h}}\nh2 = base64_decode ${{e}}\nback2 = bytes_to_string ${{h2}}\n", quote_arg(&text));
                 match run1(&base, &script) {
                     Err(e) => out.rec(&json!({"kind": "text", "text": cps(&text), "err": e, "bytes": [], "b64": [], "back": [], "back2": []})),
